@@ -12,7 +12,7 @@ Hypotheses, each stated once:
 * `Cfg ps cpu gpus` — positive page size dividing every device size (RegisterDevice then makes
   consecutive, page-aligned ranges);
 * `MigsOK n ops` — every `preparePageForMigration` targets a real GPU index `< n` (what
-  `processShootdownCompleteRsp` passes; `mig_target_needed` shows the hypothesis is necessary);
+  `processShootdownCompleteRsp` passes; `mig_any_target_full_refuted` shows the hypothesis is necessary);
 * `SingleProc ops` — at most one `Init` (any number of `InitWithExistingPID`): required exactly
   where the open finding (mirror keyed by the virtual address only) bites, i.e. for mirror
   agreement and for `Free` not to crash; **not** required for the no-aliasing invariant;
@@ -109,11 +109,11 @@ theorem no_double_handout {ps cpu : Nat} {gpus : List Nat} {ops : List Op} {s' :
 /-- The hypothesis on migration targets is necessary: migrating onto a *unified* device (never done
 by `processShootdownCompleteRsp`, whose index ranges over the real GPUs) records the unified
 device's ID, whose physical range is empty. -/
-def inDev_unrestricted : Prop :=
+def mig_any_target_full : Prop :=
   ∀ (ops : List Op) (s' : State), run (initState 4096 4096 [8192]) ops = .ok s' →
     ∀ pg ∈ s'.pt, ∃ d, s'.devs[pg.dev]? = some d ∧ d.base ≤ pg.paddr ∧ pg.paddr + s'.ps ≤ d.base + d.size
 
-theorem mig_target_needed : ¬ inDev_unrestricted := by
+theorem mig_any_target_full_refuted : ¬ mig_any_target_full := by
   intro h
   have := h [.init, .unify 0 [1], .alloc 0 100, .mig 0 4096 1] _ rfl
     { pid := 1, vaddr := 4096, paddr := 12288, dev := 2, unified := true, migrating := true } (by decide)
@@ -127,18 +127,6 @@ theorem mig_target_needed : ¬ inDev_unrestricted := by
   decide
 
 /-! ## buffers of a process never overlap -/
-
-/-- byte ranges of two buffers are disjoint -/
-def BytesDisj (a b : Buf) : Prop := a.vaddr + a.size ≤ b.vaddr ∨ b.vaddr + b.size ≤ a.vaddr
-
-theorem BDisj.bytes {ps : Nat} (hps : 0 < ps) {a b : Buf} (h : BDisj ps a b) : BytesDisj a b := by
-  have h1 := bytes_le_pages (bytes := a.size) hps
-  have h2 := bytes_le_pages (bytes := b.size) hps
-  unfold BDisj pgEnd at h
-  unfold BytesDisj
-  rcases h with h | h
-  · left; omega
-  · right; omega
 
 /-- After every history (any number of processes and contexts), all buffers ever handed out to one
 process and still listed in a context — live **or** freed — occupy pairwise disjoint page ranges,
@@ -212,6 +200,26 @@ example : (match run (initState 4096 16384 [32768, 32768]) exampleOps with
      | .ok s => (s.ctxs[1]?.map fun cx => cx.bufs.any fun b => !b.freed) == some true
      | .error _ => false) = true := by decide
 
+/-- After any disciplined single-process history every page of every live buffer is mapped for the
+buffer's process, and the allocator remembers the buffer's page count. -/
+theorem live_buffers_mapped {ps cpu : Nat} {gpus : List Nat} {ops : List Op} {s : State} (h : Cfg ps cpu gpus)
+    (hv : Valid gpus.length ops) (hD : Disciplined (initState ps cpu gpus) ops)
+    (hr : run (initState ps cpu gpus) ops = .ok s) :
+    ∀ c ∈ s.ctxs, ∀ b ∈ c.bufs, b.freed = false →
+      lookup s.npages b.vaddr = some (numPagesOf s.ps b.size) ∧
+      ∀ v ∈ bufPages s.ps b, ∃ e ∈ s.pt, e.pid = c.pid ∧ e.vaddr = v := by
+  obtain ⟨_, _, hS⟩ := run_all h hv.1 hr
+  intro c hc b hb hf
+  obtain ⟨i1, i2⟩ := (hS hv.2).2.2 hD c hc b hb hf
+  refine ⟨i1, fun v hv' => ?_⟩
+  obtain ⟨e, he, hk⟩ := List.mem_map.mp (i2 v hv')
+  simp only [key, Prod.mk.injEq] at hk
+  exact ⟨e, he, hk.1, hk.2⟩
+
+example : ∀ s, run (initState 4096 16384 [32768, 32768]) exampleOps = .ok s →
+    ∀ c ∈ s.ctxs, ∀ b ∈ c.bufs, b.freed = false → ∀ v ∈ bufPages s.ps b, ∃ e ∈ s.pt, e.pid = c.pid ∧ e.vaddr = v :=
+  fun _ hr c hc b hb hf => (live_buffers_mapped example_cfg example_valid example_disciplined hr c hc b hb hf).2
+
 /-- Without the single-process hypothesis the statement is false (the open finding): the full
 statement "after any disciplined history a Free of a live buffer succeeds" is refuted by two
 processes that allocate and free in turn (replayed on the real code by the harness). -/
@@ -243,5 +251,18 @@ theorem free_no_crash_full_refuted : ¬ free_no_crash_full := by
     decide
   rw [hs] at hfalse
   simp at hfalse
+
+/-- non-vacuity of the any-number-of-processes statements: the two-process history with a
+cross-process `Free` runs, and keeps the physical invariant -/
+example : ∀ s', run (initState 4096 4096 [8192]) crossPidOps = .ok s' →
+    s'.pool.frees.flatten.Nodup ∧ (s'.pt.map (·.paddr)).Nodup ∧
+    (∀ p ∈ s'.pool.frees.flatten, p ∉ s'.pt.map (·.paddr)) ∧
+    (∀ a ∈ s'.pt, ∀ b ∈ s'.pt, a.paddr = b.paddr → a = b) := by
+  intro s' hr
+  refine no_double_handout (gpus := [8192]) ⟨by decide, ⟨1, rfl⟩, ?_⟩ ?_ hr
+  · intro g hg; simp at hg; subst hg; exact ⟨2, rfl⟩
+  · intro op hop
+    simp [crossPidOps] at hop
+    rcases hop with rfl | rfl | rfl | rfl | rfl <;> simp [MigOK]
 
 end C10
